@@ -228,7 +228,25 @@ NamedInst == {[P("generic/namedinst-local", "generic", "type X LGI[int]", "cs", 
                EXCEPT !.form = "namedinst"],
               [P("generic/alias", "generic", "type Y = LGI[int]", "cs", AuxDecls @@ One("Y", Decl(<< >>, <<Inst("SRC", "LGI", <<Int>>)>>, << >>)), "Y")
                EXCEPT !.form = "alias", !.guarantee = FALSE]}
-GenericAll == {Gen1(n, cn) : n \in TpNames, cn \in Constraints} \cup Gen2 \cup GenEmbed \cup NamedInst
+\* constraints with SEVERAL elements (both orders), nested / embedded named constraints, unions with a plain foreign
+\* term, and tilde terms over composite types that mention imported (and local) packages
+StringM == Meth("String", << >>, <<V("", Str)>>, FALSE)
+Cmp == B("comparable")
+CtxFn == Fn(<<V("", N("Scontext", "Context"))>>, <<V("", Err)>>, FALSE)
+ConstraintsMulti ==
+  {Iface(<< >>, <<Cmp, Union(<<Str>>)>>), Iface(<< >>, <<Union(<<Str>>), Cmp>>),
+   Iface(<< >>, <<Cmp, Union(<<B("uint8"), B("int64")>>)>>), Iface(<< >>, <<Union(<<B("uint8"), B("int64")>>), Cmp>>),
+   Iface(<<StringM>>, <<Union(<<Int, Str>>)>>), Iface(<<StringM>>, <<Cmp>>), Iface(<<StringM>>, <<Cmp, Union(<<Int>>)>>),
+   Iface(<< >>, <<N("SRC", "LC"), Union(<<Str>>)>>), Iface(<< >>, <<Union(<<Str>>), N("FX", "C")>>),
+   Iface(<< >>, <<N("SRC", "Number")>>), Iface(<< >>, <<N("SRC", "LStr")>>), Iface(<< >>, <<N("SRC", "LStr"), Cmp>>),
+   Iface(<< >>, <<N("FC", "Ordered"), Cmp>>), Iface(<< >>, <<Cmp, N("FC", "Ordered")>>),
+   Union(<<Plain(N("FX", "E")), Str>>), Union(<<Str, Plain(N("FX", "E"))>>),
+   Union(<<Slice(N("Stime", "Duration"))>>), Union(<<Map(Str, Ptr(N("FX", "T")))>>), Union(<<CtxFn>>),
+   Union(<<Slice(N("SRC", "LT")), Str>>), Union(<<Int, Slice(N("FY", "T"))>>),
+   Iface(<< >>, <<Union(<<Slice(N("Stime", "Duration")), Str>>), Union(<<Slice(N("Stime", "Duration"))>>)>>)}
+ASSUME \A cn \in ConstraintsMulti \cup Constraints : ConstraintModels(cn) # {}      \* every constraint of the alphabet is satisfiable in the model
+GenMulti == {Gen1("T", cn) : cn \in ConstraintsMulti}
+GenericAll == {Gen1(n, cn) : n \in TpNames, cn \in Constraints} \cup Gen2 \cup GenEmbed \cup NamedInst \cup GenMulti
 
 (* ------------------------------------------------------------------------ *)
 (* MName: method and interface names                                         *)
